@@ -192,6 +192,42 @@ pub fn run<T: VX>(kind: &str, a: &mut Args, out: &mut Out) {
             check_same(&v, &sv, "dot_f64"); check_same(&w, &sw, "dot_f64");
             out.f(v.dot(&w));
         }
+        // vec.pardot_hist <v> <w> [k1,k2,...]   one process, the affinity of the calling thread set to the first k_i CPUs of
+        // the original mask before the i-th call (worker threads inherit it): per step num_cpus::get(), dot_f64, dot
+        "vec.pardot_hist" => {
+            let v = a.v::<f64>(); let w = a.v::<f64>();
+            let ks: Vec<usize> = a.strs().into_iter().map(|t| t.parse().expect("harness: bad int")).collect();
+            let orig = affinity::get();
+            for k in ks {
+                let sub: Vec<usize> = orig.iter().cloned().take(k).collect();
+                if sub.len() < k { panic!("harness: affinity {} not available", k); }
+                affinity::set(&sub);
+                out.usize(num_cpus::get());
+                out.f(v.dot_f64(&w));
+                out.f(v.dot(&w));
+            }
+            affinity::set(&orig);
+        }
         _ => panic!("harness: unknown kind {}", kind),
+    }
+}
+
+// CPU affinity of the calling thread (Linux): the executor's own use of the C library, not the library under test
+mod affinity {
+    extern "C" {
+        fn sched_getaffinity(pid: i32, cpusetsize: usize, mask: *mut u64) -> i32;
+        fn sched_setaffinity(pid: i32, cpusetsize: usize, mask: *const u64) -> i32;
+    }
+    pub fn get() -> Vec<usize> {
+        let mut m = [0u64; 16];
+        let rc = unsafe { sched_getaffinity(0, 128, m.as_mut_ptr()) };
+        if rc != 0 { panic!("harness: sched_getaffinity failed"); }
+        (0..1024).filter(|c| (m[c / 64] >> (c % 64)) & 1 == 1).collect()
+    }
+    pub fn set(cpus: &[usize]) {
+        let mut m = [0u64; 16];
+        for &c in cpus { m[c / 64] |= 1u64 << (c % 64); }
+        let rc = unsafe { sched_setaffinity(0, 128, m.as_ptr()) };
+        if rc != 0 { panic!("harness: sched_setaffinity failed"); }
     }
 }
